@@ -153,7 +153,16 @@ func (m *mantarayManifest) IterateAddresses(ctx context.Context, fn boson.Addres
 		return ErrMissingReference
 	}
 
-	emptyAddr := boson.NewAddress([]byte{31: 0})
+	// an empty entry is serialised as zero bytes of the manifest's reference
+	// size: 32, or 64 in an encrypted manifest
+	isEmptyEntry := func(entry []byte) bool {
+		for _, b := range entry {
+			if b != 0 {
+				return false
+			}
+		}
+		return true
+	}
 	walker := func(path []byte, node *mantaray.Node, err error) error {
 		if err != nil {
 			return err
@@ -178,7 +187,7 @@ func (m *mantarayManifest) IterateAddresses(ctx context.Context, fn boson.Addres
 				// for manifest). This workaround should be
 				// removed after the manifest serialization bug
 				// is fixed.
-				if entry.Equal(emptyAddr) {
+				if isEmptyEntry(node.Entry()) {
 					return nil
 				}
 				if err = fn(entry); err != nil {
